@@ -18,6 +18,14 @@ open ClairModel ClairModel.Order ClairModel.OrderC03 ClairModel.VerCommon ClairM
     **all** strings. -/
 theorem rpm_cmp_totalPre : TotalPre VerRpm.cmpStr := VerRpm.cmpStr_totalPre
 
+/-- The pinned library has no caret (`^`, rpm ≥ 4.15): it is a separator, so
+    `1.0^20230101-1` is compared as `1.0.20230101-1` and sorts **above**
+    `1.0.5-1`, where rpm sorts it below (finding rpm-caret). -/
+theorem rpm_no_caret_counterexample :
+    VerRpm.cmpStr "1.0^20230101-1".toList "1.0.5-1".toList = .gt ∧
+    VerRpm.cmpStr "1.0^1-1".toList "1.0.1-1".toList = .eq := by
+  decide
+
 /-! ### ArchOp.Cmp -/
 
 /-- An advisory that names no architecture matches every package. -/
